@@ -238,6 +238,9 @@ def gen_case(rng, focus):
             if not wos:
                 continue
             o2, m2 = rng.choice(wos)
+            if len(script) % 2 == 0:
+                # the write-only entry has been written before: a stored value exists, reading stays refused
+                script.append(dl_item(rng, o2["idx"], m2["sub"], rand_bytes_for(rng, m2["dt"])))
             script.append({"k": "ul", "idx": o2["idx"], "sub": m2["sub"]})
         elif pick == "novalue":
             nov = [(oo, mm) for oo, mm in ents
